@@ -30,6 +30,7 @@ func (u *Unit) evalCall(st *State, e *ast.CallExpr) Term {
 	if fl := u.inlineTarget(e); fl != nil {
 		return u.execLitInline(st, e, fl)
 	}
+	u.countCall(st, e)
 	// resolve static callee
 	callee, recvExpr := u.staticCallee(e)
 	if callee != nil {
